@@ -19,7 +19,8 @@ import NV.Gen.C16
 
 namespace NV.C16
 
-abbrev Byte := Nat
+/-- bytes are natural numbers (a notation, so that `omega`/`simp` see plain `Nat`) -/
+scoped notation "Byte" => Nat
 
 /-- C string view of a byte list: everything before the first NUL -/
 def cstr (t : List Byte) : List Byte := t.takeWhile (· ≠ 0)
@@ -97,6 +98,11 @@ structure MbLen where
   len : List Byte → Option Nat
   pos : ∀ s n, len s = some n → s ≠ [] → 1 ≤ n
   le_length : ∀ s n, len s = some n → n ≤ s.length
+  /-- an ASCII byte is a character of its own -/
+  ascii : ∀ c r, c < 128 → len (c :: r) = some 1
+  /-- the bytes of a multibyte character after its first are not ASCII (true of UTF-8, which the driver always
+      selects: src/main.c setlocale(LC_ALL, PLATFORM_UTF8_LOCALE); false of Big5/GBK/Shift-JIS) -/
+  cont : ∀ s n, len s = some n → ∀ b ∈ (s.take n).drop 1, 128 ≤ b
 
 /-! ## save side -/
 
@@ -714,8 +720,10 @@ def splitLines : List Byte → List (List Byte)
     | [] => [[c]]
     | l :: ls => if c = 10 then [] :: l :: ls else (c :: l) :: ls
 
-def setVar (vars : List (Var α)) (name : List Byte) (v : Value α) : List (Var α) :=
-  vars.map (fun x => if x.name = name then { x with val := v } else x)
+/-- assignment to the variable find_global_variable() returns: the first one of that name -/
+def setVar : List (Var α) → List Byte → Value α → List (Var α)
+  | [], _, _ => []
+  | x :: r, name, v => if x.name = name then { x with val := v } :: r else x :: setVar r name v
 
 inductive RoOut (α : Type) where
   | done (vars : List (Var α))
